@@ -1025,7 +1025,7 @@ Proof.
   - destruct l as [|x l]; [discriminate|]. cbn. destruct (fd_known d); auto.
 Qed.
 
-Lemma typed_outcome_any o p : typed_outcome o (p, IO_Single) -> typed_outcome o (PT_Any, IO_Single).
+Lemma typed_outcome_any o rt : typed_outcome o rt -> typed_outcome o (PT_Any, IO_Single).
 Proof. destruct o; cbn; auto. Qed.
 
 (** C14 (c) against the type CueValidate actually reports, for a receiver that is a
@@ -1057,15 +1057,7 @@ Proof.
     - apply ioty_eqb_eq in Hb. contradiction. }
   destruct (reported_vs_sound d v Hwf Hk Hs) as [E|E]; fold prev in E; rewrite E.
   - exact Hto.
-  - destruct (sound_reported (fd_ret d) prev) as [p io] eqn:Esr.
-    assert (io = IO_Single).
-    { unfold sound_reported in Esr. destruct (fd_ret d) as [rt rio] eqn:Er.
-      (* the report is (Any, Single) only when Returns is (Any, Single) *)
-      unfold reported in E. rewrite Er in E.
-      destruct rt; destruct rio; try (injection Esr as <- <-; reflexivity);
-        cbn in E; destruct (fd_known d && vty_io_is (Some prev) IO_Array && ckind_eqb (underlying_kind v) KStruct);
-        try discriminate; destruct (underlying_kind v); discriminate. }
-    subst io. apply (typed_outcome_any _ p). exact Hto.
+  - apply (typed_outcome_any _ (sound_reported (fd_ret d) prev)). exact Hto.
 Qed.
 
 (** ** through CueValidate: `$.k1.….kn.F(args)` *)
@@ -1109,7 +1101,8 @@ Proof.
   destruct schema as [ | | | | | | | | | o fs]; try discriminate. cbn [wf_schema] in Hwf.
   destruct (keys_loop_init_accept (CStruct o fs) bl true o fs k ks prev eq_refl Hwf Hb Hw)
     as [s' [cur [E1 [E2 [E3 E4]]]]].
-  exists cur. destruct E2. rewrite E4 in av_cue0.
+  exists cur. destruct E2 as [av_error0 av_clean0 av_last0 av_part0 av_should0 av_unknown0 av_found0 av_cue0 av_ret0 av_wf0].
+  rewrite E4 in av_cue0.
   split; [exact av_cue0|]. split; [exact E3|]. split; [exact av_wf0|].
   cbv zeta. unfold validate_top_gen, validate_top_with, call_path. rewrite validate_path_unfold.
   cbn [available_fields incomplete_kind].
@@ -1119,8 +1112,8 @@ Proof.
   rewrite <- call_part_type. unfold call_part.
   destruct (validate_func tbl (CStruct o fs) bl f (k :: ks) (Some prev)) as [[[fp ty] known] goerr].
   cbn [fst snd finish pr_error pr_parts pr_type v_err v_has_errors v_type st_error st_parts].
-  unfold path_has, add_part. cbn [pr_error pr_parts]. rewrite av_error0.
-  rewrite existsb_app, (clean_parts_has _ av_clean0), rev_app_distr. cbn. rewrite orb_false_r. auto.
+  unfold path_has, add_part, finish. cbn [pr_error pr_parts st_error st_parts].
+  rewrite existsb_app, (clean_parts_has _ av_clean0), rev_app_distr. cbn. rewrite orb_false_r, av_error0. cbn. auto.
 Qed.
 
 (** C14 (a) at the level of CueValidate *)
@@ -1178,6 +1171,34 @@ Lemma C14_single_param_kind_unchecked :
   v_has_errors r = false.
 Proof. vm_compute. reflexivity. Qed.
 
+
+(** outside C13/C14's domains, recorded: after an element-returning function on a
+    `[...T]` list, findValueAtPath spends the next key on moving from the list to
+    its element type without applying it: any key is accepted and typed Object … *)
+Lemma C14_key_after_element_function_not_applied :
+  let elem := CStruct false [(mkLabel (bs "z") FRegular, CStr)] in
+  let schema := CStruct false [(mkLabel (bs "ls") FRegular, CList true elem)] in
+  let first := PFunc (Func false (bs "First") [] (bs "First()")) in
+  let q key := TopP (Path false true false false
+                       [PIdent (bs "ls") false (bs "ls"); first; PIdent key false key] (bs "$.ls.First()." ++ key)) in
+  v_has_errors (validate_top schema [] (q (bs "z"))) = false /\
+  v_type (validate_top schema [] (q (bs "z"))) = Some (PT_Object, IO_Single) /\
+  v_has_errors (validate_top schema [] (q (bs "nosuch"))) = false.
+Proof. vm_compute. auto. Qed.
+
+(** … and the same happens to the first key of every `@` path inside a filter on
+    such a list: `$.ls[@.nosuch.Equal("x")]` is accepted *)
+Lemma C14_filter_key_not_applied :
+  let elem := CStruct false [(mkLabel (bs "z") FRegular, CStr)] in
+  let schema := CStruct false [(mkLabel (bs "ls") FRegular, CList true elem)] in
+  let pred := Path false false true true
+                [PIdent (bs "nosuch") false (bs "nosuch");
+                 PFunc (Func false (bs "Equal") [FPStr (bs "x")] (bs "Equal(""x"")"))] (bs "@.nosuch.Equal(""x"")") in
+  let flt := PFilter (LogOp false true LAnd [OpP pred] (bs "[@.nosuch.Equal(""x"")]")) (bs "[@.nosuch.Equal(""x"")]") in
+  let q := TopP (Path false true false false [PIdent (bs "ls") false (bs "ls"); flt] (bs "$.ls[@.nosuch.Equal(""x"")]")) in
+  v_has_errors (validate_top schema [] q) = false /\ v_err (validate_top schema [] q) = false.
+Proof. vm_compute. auto. Qed.
+
 Print Assumptions C14_accepts_iff.
 Print Assumptions C14_accepts_iff_cue.
 Print Assumptions C14_reported_type.
@@ -1192,3 +1213,5 @@ Print Assumptions C14_type_sound.
 Print Assumptions C14_type_sound_reported.
 Print Assumptions C14_any_single_array_gap_accepted.
 Print Assumptions C14_single_param_kind_unchecked.
+Print Assumptions C14_key_after_element_function_not_applied.
+Print Assumptions C14_filter_key_not_applied.
